@@ -296,6 +296,35 @@ def _mean_grp_task(task, p):
                                      "nds": [nd0, nd], "dtype": dtype},
                                     f"mean_grp result depends on the nodata value ({nd0} vs {nd}) for word "
                                     f"{idx[j].tolist()} labels {labels} {dtype}")
+    # float32 data that are not small integers, with large-magnitude markers: the mean must be that of the valid
+    # cells to float32 accuracy whatever number marks the gaps
+    if n >= 2:
+        fv = np.array([0, 3.3, 10.7], dtype=np.float32)
+        for k in range(1, min(maxk, n) + 1):
+            for labels in sse.surjective_labelings(n, k):
+                g = np.asarray(labels, dtype="int16")
+                base = None
+                for nd in (-9999.0, -32768.0, float(np.finfo(np.float32).min), 2.0 ** 100):   # markers exactly representable in float32
+                    x = fv[idx].copy()
+                    x[~valid] = np.float32(nd)
+                    try:
+                        out = np.asarray(_stats().mean_grp(x, g, k, nd)).astype(np.float64)
+                    except Exception as e:
+                        p.violation("mean_grp_float", {"labels": list(labels), "nd": nd}, {"kind": "mg_float", "n": n}, f"mean_grp raised {type(e).__name__}: {e}")
+                        continue
+                    exp = np.empty((N, n))
+                    for grp in range(k):
+                        m = g == grp
+                        vv = np.where(valid[:, m], x[:, m].astype(np.float64), 0.0)
+                        c = valid[:, m].sum(axis=1)
+                        with np.errstate(all="ignore"):
+                            exp[:, m] = np.where(c > 0, vv.sum(axis=1) / np.maximum(c, 1), np.float64(np.float32(nd)))[:, None]
+                    tol = 4 * np.spacing(np.abs(exp).astype(np.float32)).astype(np.float64)
+                    bad = np.abs(out - exp) > tol
+                    p.count("mean_grp_float", evaluations=N, nontrivial=N)
+                    for j in np.nonzero(bad.any(axis=1))[0][:3]:
+                        p.violation("mean_grp_float", {"x": x[j].tolist(), "labels": list(labels), "nd": nd}, {"kind": "mg_float", "n": n},
+                                    f"mean_grp(float32 {x[j].tolist()}, groups={list(labels)}, nodata={nd}) -> {out[j].tolist()}, mean of the valid cells {exp[j].tolist()}")
     p.sample(sub, {"n": n, "labels": "all surjective labelings with <=%d groups" % maxk,
                    "words": "all over {ND,%s,%s}" % (ab[0], ab[1]), "dtypes": dtypes})
 
@@ -428,6 +457,9 @@ def run(ctx):
 
 def replay(sub, case, p):
     kind = case["kind"]
+    if kind == "mg_float":
+        _mean_grp_task((case["n"], [3, 10], [-9999, 255, 4], ["float32"], 3), p)
+        return
     if kind == "falsy":
         falsy_nodata(p)
         return
